@@ -172,6 +172,12 @@ def menu(ctx: Ctx, rng: random.Random) -> tuple[list[dict], dict]:
                {"op": "iban.bank", "t": cps("DE42430609677000534100")},
                {"op": "iban.parts", "t": cps("DE89370400440532013000"), "ai": False},
                {"op": "iban.parts", "t": cps("DE42430609677000534100"), "ai": False},
+               # several entry points that meet at ONE registry key (several candidates, preferred not first)
+               {"op": "bic.lookup", "cc": cps("FR"), "code": cps("20041")},
+               {"op": "iban.bank", "t": cps("FR1420041010050500013M02606")},
+               {"op": "iban.bank", "t": cps("FR7620041010050500013M02703")},
+               {"op": "bic.lookup", "cc": cps("FR"), "code": cps("30004")},
+               {"op": "iban.bank", "t": cps("FR7630004000031234567890143")},
                {"op": "iban.random", "country": cps("DE"), "seed": 15, "use_registry": True, "pinned": [], "vals": {}},
                {"op": "iban.random", "country": cps("GB"), "seed": 16, "use_registry": True, "pinned": [], "vals": {}},
                {"op": "iban.random", "country": cps("GB"), "seed": 17, "use_registry": False, "pinned": [], "vals": {}},
@@ -338,6 +344,24 @@ def run(ctx: Ctx) -> dict:
             pairs.append((idxs[0], idxs[1]))            # same operation, same country, different inputs
             if len(idxs) >= 3:
                 pairs.append((idxs[1], idxs[2]))
+    # calls that meet at one registry key through different entry points, and a call against ITSELF:
+    # what races when two threads fill the same lazily built entry for the first time (every schedule
+    # runs in a cold child, see thr_probe.in_cold_child)
+    bykey = {}
+    for i, c in enumerate(callsl):
+        if c["op"] == "bic.lookup":
+            bykey.setdefault(text(c["cc"]) + ":" + text(c["code"]), []).append(i)
+        elif c["op"] == "iban.bank":
+            t = text(c["t"])
+            for k in list(bykey):
+                if t.startswith(k[:2]) and k[3:] == t[4:4 + len(k) - 3]:
+                    bykey[k].append(i)
+    same_key = []
+    for k, idxs in sorted(bykey.items()):
+        same_key += [(a, b) for a in idxs for b in idxs if a <= b]
+    firsts = [idxs[0] for key, idxs in sorted(fam.items()) if not key.startswith("algo.validate:")]
+    same_key += [(i, i) for i in (firsts if not ctx.quick else rng.sample(firsts, min(12, len(firsts))))]
+    pairs += same_key
     keys = sorted(fam)
     for _ in range(20 if ctx.quick else 150):            # different operations
         a, b = rng.sample(keys, 2)
@@ -347,6 +371,8 @@ def run(ctx: Ctx) -> dict:
         other = [p for p in pairs if p not in same]
         algo = [p for p in same if callsl[p[0]]["op"] == "algo.validate"]
         rest = [p for p in same if p not in algo]          # every other same-kind pair: always
+        other = [p for p in other if p not in same_key]
+        rest += [p for p in same_key if p not in rest]
         pairs = rest + algo + rng.sample(other, min(len(other), 20))
     counts = thr_jobs(ctx, [{"mode": "count", "calls": [callsl[a], callsl[b]]} for a, b in pairs], "cnt")
     ljobs, lmeta = [], []
